@@ -117,6 +117,9 @@ func Cleanup() *sx.Node             { return sx.L(sx.A("cleanup")) }
 func KillEnv(k int) *sx.Node        { return sx.L(sx.A("killenv"), sx.I(k)) }
 func Rel(k int) *sx.Node            { return sx.L(sx.A("rel"), sx.I(k)) }
 
+// Idle: the harness lets ms milliseconds pass.
+func Idle(ms int) *sx.Node { return sx.L(sx.A("idle"), sx.I(ms)) }
+
 // XFail / AFail: the executor / the agent of the task of role j of environment k fails
 // (upd: preceded by the terminal status updates of the tasks it ran).
 func XFail(k, j int, upd bool) *sx.Node { return sx.L(sx.A("xfail"), sx.I(k), sx.I(j), sx.B(upd)) }
